@@ -136,7 +136,7 @@ static inline WriteOutcome run_writer(const gen::WritePlan& p, const std::string
                 // only when the column keeps rows from its other batches in this row group (a column that receives nothing at all is
                 // something the library's own test suite does and expects to succeed)
                 int64_t others = 0; for (auto& b2 : p.rgs[g].batches) if (b2.col == b.col && &b2 != &b) others += b2.count;
-                if (b.count > 0 && others > 0) { g_bad_call_made = true; call++; continue; }
+                if (b.count > 0 && (others > 0 || b.col == 0)) { g_bad_call_made = true; call++; continue; }      // column 0 is the writer's row reference: it may also lose its only batch
             } else if (g_bad_call_at == call && !g_bad_call_made) {
                 g_bad_call_made = true;
                 int32_t bc = g_bad_call_kind == 0 ? -1 : g_bad_call_kind == 1 ? (int32_t)p.table.cols.size() : b.col;
